@@ -113,7 +113,14 @@ Rotate ==
   /\ UNCHANGED <<fst, fcls, run, cached, served, shown, adv>>
   /\ act' = [n |-> "Rotate"]
 
-Next == Rotate \/ StartCached \/ StartUncached \/ Stop \/ Delete \/ (\E k \in {"script", "reprint"} : Advert(k))
+(* Time passes beyond the validity of the cached certificate.  Nothing in   *)
+(* what a run does depends on it: the key in the file is the identity.     *)
+Expire ==
+  /\ Step /\ run # "running" /\ fst = "intact"
+  /\ UNCHANGED <<fst, fkey, fcls, fileId, run, cached, served, shown, nkeys, adv>>
+  /\ act' = [n |-> "Expire"]
+
+Next == Expire \/ Rotate \/ StartCached \/ StartUncached \/ Stop \/ Delete \/ (\E k \in {"script", "reprint"} : Advert(k))
         \/ (\E cl \in CutClasses : Crash(cl)) \/ (\E cl \in DamageClasses : Damage(cl))
 Spec == Init /\ [][Next]_vars
 
